@@ -116,7 +116,9 @@ def tree_hash(d: Path):
 def run_config(conf):
     d = driver.scratch_dir()
     try:
-        files = {"test_cats.py": TEST_CATS, "test_ext.py": TEST_EXT,
+        # test_zz.py holds one more create change and nothing else: what one category changes lies in other files than what
+        # another category changes
+        files = {"test_cats.py": TEST_CATS, "test_ext.py": TEST_EXT, "test_zz.py": "from inline_snapshot import snapshot\n\n\ndef test_zz():\n    assert 3 == snapshot()\n",
                  f".inline-snapshot/external/{hashlib.sha256(USED).hexdigest()}.txt": USED,
                  f".inline-snapshot/external/{hashlib.sha256(UNUSED).hexdigest()}.txt": UNUSED,
                  ".inline-snapshot/external/.gitignore": "# ignore all snapshots which are not referred in the source\n*-new.*\n"}
@@ -242,6 +244,8 @@ def run(ctx: Ctx):
             why = "an unreferenced persisted external was removed although trim is not approved"
         elif o["weird"]:
             why = "a snapshot argument has an unexpected form"
+        elif o["rc"] != 4 and (ok - ({"update"} if c["skip"] and "update" not in effective(c) else set())) - written:
+            why = f"categories {sorted(ok - written)} are approved and pending but were not applied"
         if why:
             ctx.report("C04 oracle: " + why + f" (effective flags {effective(c)})", {"kind": "conf", "conf": c, "output": o["tail"], "text": o["text"]}, tag=classify(c, o))
             continue
